@@ -507,6 +507,62 @@ class HistMs(Hist):
             self.problems.append(('duplicate-address', self.rep(observed=sorted(a for a in addrs if addrs.count(a) > 1)[:4])))
 
 
+def account_key_wallets(ctx):
+    """wallets made from a PRIVATE account-level extended key (depth 3): their keys are the children of that account key; a key of another
+    witness type lies under another purpose' and cannot come from this key - such a request must be refused, not answered with some key"""
+    from bitcoinlib.wallets import Wallet, WalletError
+    from bitcoinlib.keys import HDKey, BKeyError
+    rng = ctx.rng
+    for wt, net in (('segwit', 'bitcoin'), ('p2sh-segwit', 'testnet'), ('legacy', 'bitcoin')):
+        seed = bytes(rng.randrange(256) for _ in range(32))
+        purpose = {'legacy': 44, 'p2sh-segwit': 49, 'segwit': 84}[wt]
+        acct = rng.choice([0, 0, 2])
+        apath = "m/%d'/%d'/%d'" % (purpose, NETS[net], acct)
+        master = HDKey.from_seed(seed, witness_type=wt, network=net)
+        akey = master.subkey_for_path(apath)
+        db = 'sqlite:///' + os.path.join(os.environ['BCL_DATA_DIR'], 'c09acc_%s_%s_%s.sqlite' % (wt.replace('-', '_'), net, ctx.seed))
+        try:
+            w = Wallet.create('acc', keys=akey.wif_private(), witness_type=wt, network=net, db_uri=db)
+        except Exception as e:
+            ctx.count('account-key-wallet-not-created')
+            continue
+        enc, typ = ADDR_KIND[wt]
+
+        def expect(change, idx):
+            r = run_driver(['bip32 %s %s/%d/%d' % (seed.hex(), apath, change, idx)])[0].split(' | ')[0]
+            f = dict(x.split('=') for x in r.split(' ')[1:])
+            return run_driver(['addr %s %s %s %s' % (net, enc, typ, f['pub'])])[0].split(' | ')[0]
+        issued = {0: [], 1: []}
+        for step in range(6):
+            change = rng.choice([0, 0, 1])
+            other = rng.random() < 0.4
+            owt = rng.choice([x for x in ADDR_KIND if x != wt])
+            ctx.evals += 1
+            ctx.count('account-key-wallet:' + ('other-witness-type' if other else 'own'))
+            if step == 3:
+                w = Wallet('acc', db_uri=db)
+            try:
+                if other:
+                    k = rng.choice([lambda: w.new_key(change=change, witness_type=owt), lambda: w.get_key(change=change, witness_type=owt),
+                                    lambda: w.get_keys(number_of_keys=2, change=change, witness_type=owt)[0]])()
+                    ctx.violation('a wallet made from an account key of one witness type handed out a key for another witness type',
+                                  {'op': 'account-key-wallet', 'wallet': (wt, net, apath), 'asked': owt, 'observed': (k.path, k.address)})
+                    break
+                k = w.new_key(change=change)
+            except (WalletError, BKeyError) as e:
+                if other:
+                    continue
+                ctx.violation('a wallet made from a private account key refuses its own keys', {'op': 'account-key-wallet', 'wallet': (wt, net, apath), 'error': str(e)[:100]})
+                break
+            idx = len(issued[change]) + (1 if change == 0 else 0)          # (the wallet owns key 0/0 from its creation)
+            issued[change].append(k.address)
+            want = expect(change, idx)
+            if k.address != want:
+                ctx.violation('a key of a wallet made from an account key is not the BIP32 child of that account key at the next index',
+                              {'op': 'account-key-wallet', 'wallet': (wt, net, apath), 'change': change, 'index': idx, 'observed': (k.path, k.address), 'expected': want})
+                break
+
+
 def path_expand_checks(ctx):
     """keys.path_expand on partial paths / hardened markers against `expandWith`"""
     from bitcoinlib.keys import path_expand
@@ -537,6 +593,7 @@ def path_expand_checks(ctx):
 
 def run(ctx):
     path_expand_checks(ctx)
+    account_key_wallets(ctx)
     configs = [('segwit', 'bitcoin', 'hdkey'), ('legacy', 'bitcoin', 'mnemonic'), ('p2sh-segwit', 'litecoin', 'xprv'), ('segwit', 'testnet', 'mnemonic'),
                ('legacy', 'dogecoin', 'hdkey')]
     configs += [('segwit', 'bitcoin', 'multisig'), ('legacy', 'bitcoin', 'multisig'), ('p2sh-segwit', 'testnet', 'multisig')]
